@@ -260,9 +260,16 @@ def _state_functions(cls):
     fn = CF
     m = _find_method(cls, '_create_state_functions', fn)
     params = [a.arg for a in m.args.args][1:]
+    if len(params) == 5 and params[4] == 'reserved':
+        params = params[:4]          # the names generated symbols must avoid (property C11), not part of the contract
     if len(params) != 4 or m.args.vararg or m.args.kwarg or m.args.defaults:
         _fail(fn, m, '_create_state_functions signature')
     body = _nodoc(m.body)
+    # fresh names for template parameters: `<v> = self.ctx.namer.new_symbol('<root>', reserved)`
+    fresh = [st for st in body if isinstance(st, ast.Assign) and len(st.targets) == 1 and isinstance(st.targets[0], ast.Name)
+             and isinstance(st.value, ast.Call) and ast.unparse(st.value.func) == 'self.ctx.namer.new_symbol'
+             and len(st.value.args) == 2 and isinstance(st.value.args[0], ast.Constant) and ast.unparse(st.value.args[1]) == 'reserved']
+    body = [st for st in body if st not in fresh]
     if len(body) != 5:
         _fail(fn, m, '_create_state_functions must have 5 statements (if-empty, accumulator, loop, template, return)')
     s_if, s_acc, s_for, s_tpl, s_ret = body
